@@ -31,9 +31,10 @@ T = {
 }
 
 ROOT, PREFIX, ROUND = "/tmp/mut", "", 1
-if "--round2" in sys.argv:
-    sys.argv.remove("--round2")
-    ROOT, PREFIX, ROUND = "/tmp/mut2", "r2-", 2
+for _r in (2, 3, 4):
+    if "--round%d" % _r in sys.argv:
+        sys.argv.remove("--round%d" % _r)
+        ROOT, PREFIX, ROUND = "/tmp/mut%d" % _r, "r%d-" % _r, _r
 
 
 def derive(demo):
